@@ -32,27 +32,35 @@ TRUSTED = [
     "generator contract: rng.shuffle / rng.permutation return a permutation of their argument (the recorded outputs "
     "are fed to the model; theorems quantify over all permutations)",
     "numpy/torch primitives used by the constructors: arange, isin, tile, nonzero, unique(return_counts), boolean "
-    "mask indexing, concat; float32 division max/count in OversamplingWrapper and float32 percent*count in "
-    "ClasswiseSubsetWrapper are exact for the sizes generated (counts < 2**24, dyadic percents)",
+    "mask indexing, concat, integer floor division",
+    "ClasswiseSubsetWrapper: percent * 0-dim int64 tensor is evaluated by torch in binary32; modelled with SpecFloat's "
+    "format-parametric SFmul (prec 24, emax 128; instance ModelFloat.float32_ops), contract clauses evaluated per "
+    "case like the binary64 ones",
     "selection_is_function_of_args_and_draws is true of the model by construction; that the real constructors read "
-    "nothing but labels, arguments and their own seeded generator is checked per case (second construction under "
-    "another global RNG state, global RNG state tripwire, three label providers)",
-    "harness/c03.py: dataset with x = sample id, spy around numpy.random.default_rng, alarm (2 s, 0.5 s after two "
-    "confirmed hangs) that classifies a non-returning constructor as RUNAWAY",
+    "nothing but labels, arguments and their own seeded generator is checked per case: two constructions under "
+    "different states of ALL THREE global generators (numpy legacy, torch, Python random), the complete state of "
+    "each compared before/after each construction (tripwire), three label providers; seeds include 0, False, "
+    "numpy integer 0 and values beyond 2**32 / 2**64; with seed=None the selection must be a function of the "
+    "numpy global state (same state -> same selection) and must not touch torch / Python random",
+    "harness/c03.py: dataset with x = sample id, spy around numpy.random.default_rng / numpy.random.shuffle / "
+    "numpy.random.permutation, CPU-time alarm (ITIMER_VIRTUAL 3 s, 1 s after two confirmed hangs; 60 s wall-clock "
+    "fallback) that classifies a non-returning constructor as RUNAWAY",
 ]
 ASSUMPTIONS = [
-    "labels in [0, C) for the class-based wrappers (a few cases with -1 / out-of-range labels are run for "
-    "model-vs-code agreement only; IntraClassShuffleWrapper with a label -1 is not generated: Python's negative "
-    "indexing makes it reuse the last class's permutation, outside the property and not modelled)",
+    "labels are -1 (unlabeled, the convention of utils/class_counts.py) or in [0, C) for the class-based wrappers "
+    "(a few cases with a label C are run for model-vs-code agreement only)",
     "start_index >= 0, num_shots >= 0; non-empty dataset for OversamplingWrapper",
-    "seeded wrappers are constructed with an explicit seed (seed=None draws from the global generator by design)",
-    "ClasswiseSubsetWrapper percents are dyadic (k/8): the code multiplies in float32",
+    "seeds are None or non-negative integers (what numpy.random.default_rng accepts); FewshotWrapper(seed=None) "
+    "seeds from OS entropy by numpy's definition: only the structural promise is checked there",
 ]
-RULE = ("class layouts of size 0-40 (thorough -80) over C in 1..6 with absent, single-sample and dominant classes; "
+RULE = ("class layouts of size 0-64 (thorough -200) over C in 1..6 with absent, single-sample, dominant classes and "
+        "unlabeled (-1) samples; oversampling layouts with class counts (c, k*c + d), d in -1..1, c incl. 41, 47, 55, 61; "
         "13 constructor kinds; percents from {0, 1, k/n, k/n +- ulp, k/8, random}; index bounds incl. 0, n, beyond n; "
-        "seeds 0-9999; non-trivial = constructor succeeded with a non-empty selection; distinct by (kind, layout, args)")
+        "seeds from {None, 0, False, True, numpy 0, 1, 2**32-1, 2**32, 2**63, 2**64+k, random}; "
+        "non-trivial = constructor succeeded with a non-empty selection; distinct by (kind, layout, args)")
 
-EXPECTED_ERRORS = (AssertionError, RuntimeError, ValueError, IndexError, NotImplementedError, ZeroDivisionError)
+EXPECTED_ERRORS = (AssertionError, RuntimeError, ValueError, IndexError, KeyError, NotImplementedError, ZeroDivisionError,
+                   AttributeError, TypeError)
 KINDS = ["class_filter", "percent", "subset_idx", "subset_range", "subset_percent", "shuffle", "repeat",
          "oversample", "sort", "intra", "fewshot", "cw_range", "cw_percent"]
 
@@ -100,6 +108,10 @@ def _classes():
         def getshape_class(self):
             return (self.n_classes,)
 
+        @property
+        def class_names(self):
+            return ["c%d" % i for i in range(self.n_classes)]
+
     class DSList(DS):
         def getall_class(self):
             return list(self.c)
@@ -144,19 +156,33 @@ def _alarm(signum, frame):
     raise _Runaway()
 
 
-# a construction on <= 80 samples takes about a millisecond; the first hangs are given 2 s, once two constructors
-# have been seen not to return the remaining ones get 0.5 s (the run is failing anyway; keeps it short)
+# a construction on <= 200 samples takes a few milliseconds of CPU.  The guard counts the process's own CPU time
+# (ITIMER_VIRTUAL): a constructor that spins burns it, a constructor that is merely descheduled on a loaded machine
+# does not.  The first hangs are given 3 s CPU, once two constructors have been seen not to return the remaining ones
+# get 1 s (the run is failing anyway; keeps it short).  A generous wall-clock alarm catches a hang that sleeps.
 _RUNAWAYS = [0]
+WALL_FALLBACK_S = 60.0
 
 
 def _alarm_seconds():
-    return 2.0 if _RUNAWAYS[0] < 2 else 0.5
+    return 3.0 if _RUNAWAYS[0] < 2 else 1.0
+
+
+def _seed_arg(case):
+    """the seed as handed to the constructor: None, a Python int / bool, or a numpy integer"""
+    s = case["seed"]
+    if s is not None and case.get("seed_np"):
+        return _classes()["np"].int64(s)
+    return s
 
 
 def _construct(case, ds):
     K = _classes()
     w = case["w"]
     if w == "class_filter":
+        if case.get("names"):      # by name; a name the dataset does not know ("c<C>") selects nothing
+            return K["ClassFilterWrapper"](ds, **{("valid_class_names" if case["valid"] else "invalid_class_names"):
+                                                  ["c%d" % c for c in case["cls"]]})
         return K["ClassFilterWrapper"](ds, **{("valid_classes" if case["valid"] else "invalid_classes"): list(case["cls"])})
     if w == "percent":
         return K["PercentFilterWrapper"](ds, from_percent=case["from"], to_percent=case["to"],
@@ -168,7 +194,7 @@ def _construct(case, ds):
     if w == "subset_percent":
         return K["SubsetWrapper"](ds, start_percent=case["s"], end_percent=case["e"])
     if w == "shuffle":
-        return K["ShuffleWrapper"](ds, seed=case["seed"])
+        return K["ShuffleWrapper"](ds, seed=_seed_arg(case))
     if w == "repeat":
         return K["RepeatWrapper"](ds, repetitions=case["reps"], min_size=case["min_size"])
     if w == "oversample":
@@ -176,9 +202,9 @@ def _construct(case, ds):
     if w == "sort":
         return K["SortByClassWrapper"](ds)
     if w == "intra":
-        return K["IntraClassShuffleWrapper"](ds, seed=case["seed"])
+        return K["IntraClassShuffleWrapper"](ds, seed=_seed_arg(case))
     if w == "fewshot":
-        return K["FewshotWrapper"](ds, num_shots=case["shots"], seed=case["seed"])
+        return K["FewshotWrapper"](ds, num_shots=case["shots"], seed=_seed_arg(case))
     if w == "cw_range":
         return K["ClasswiseSubsetWrapper"](ds, start_index=case["s"], end_index=case["e"],
                                            check_enough_samples=case["check"])
@@ -187,18 +213,25 @@ def _construct(case, ds):
     raise KeyError(w)
 
 
-def _select(case, trace=None):
-    """(selection or None, error name)"""
+def _select(case, trace=None, over=None):
+    """(selection or None, error name); over = constructor call of a second wrapper put on top of the first"""
     K = _classes()
     np = K["np"]
     ds = K["ds"][case.get("prov", "list")](case["classes"], case["C"])
-    real_default_rng = np.random.default_rng
+    real = np.random.default_rng, np.random.shuffle, np.random.permutation
     if trace is not None:
-        np.random.default_rng = lambda *a, **kw: K["Spy"](real_default_rng(*a, **kw), trace)
-    old = signal.signal(signal.SIGALRM, _alarm)
-    signal.setitimer(signal.ITIMER_REAL, _alarm_seconds())
+        np.random.default_rng = lambda *a, **kw: K["Spy"](real[0](*a, **kw), trace)
+        # seed=None: the wrappers draw from the numpy module itself (ShuffleWrapper) / through GlobalRng
+        glob = K["Spy"](type("NumpyGlobal", (), {"shuffle": staticmethod(real[1]), "permutation": staticmethod(real[2])}), trace)
+        np.random.shuffle, np.random.permutation = glob.shuffle, glob.permutation
+    old_v = signal.signal(signal.SIGVTALRM, _alarm)
+    old_r = signal.signal(signal.SIGALRM, _alarm)
+    signal.setitimer(signal.ITIMER_VIRTUAL, _alarm_seconds())
+    signal.setitimer(signal.ITIMER_REAL, WALL_FALLBACK_S)
     try:
         w = _construct(case, ds)
+        if over is not None:
+            w = _construct(over, w)
         out = [int(w.getitem_x(i)) for i in range(len(w))]
         return out, None
     except _Runaway:
@@ -207,30 +240,61 @@ def _select(case, trace=None):
     except EXPECTED_ERRORS as e:
         return None, type(e).__name__
     finally:
+        signal.setitimer(signal.ITIMER_VIRTUAL, 0)
         signal.setitimer(signal.ITIMER_REAL, 0)
-        signal.signal(signal.SIGALRM, old)
-        np.random.default_rng = real_default_rng
+        signal.signal(signal.SIGVTALRM, old_v)
+        signal.signal(signal.SIGALRM, old_r)
+        np.random.default_rng, np.random.shuffle, np.random.permutation = real
+
+
+SEEDED = ("shuffle", "intra", "fewshot")
+
+
+def _global_states():
+    """the complete state of the three process-wide generators"""
+    K = _classes()
+    s = K["np"].random.get_state()
+    return {"numpy": (s[0], s[1].tobytes(), s[2], s[3], s[4]),
+            "torch": K["torch"].get_rng_state().numpy().tobytes(),
+            "random": pyrandom.getstate()}
+
+
+def _select_under(case, np_seed, torch_seed, py_seed, trace=None):
+    """one construction under the given states of the global generators; which of them it consumed"""
+    K = _classes()
+    K["np"].random.seed(np_seed)
+    K["torch"].manual_seed(torch_seed)
+    pyrandom.seed(py_seed)
+    g0 = _global_states()
+    out, err = _select(case, trace)
+    g1 = _global_states()
+    return out, err, sorted(k for k in g0 if g0[k] != g1[k])
 
 
 def run_impl(case):
     import warnings
     warnings.filterwarnings("ignore")
-    K = _classes()
-    np, torch = K["np"], K["torch"]
-    np.random.seed(11)
-    torch.manual_seed(11)
-    pyrandom_state = pyrandom.getstate()
-    g0 = np.random.get_state()[1].tolist()[:8], torch.get_rng_state()[:16].tolist()
+    py_state = pyrandom.getstate()
+    try:
+        return _run_impl(case)
+    finally:
+        pyrandom.setstate(py_state)
+
+
+def _run_impl(case):
     trace = []
-    out, err = _select(case, trace)
-    g1 = np.random.get_state()[1].tolist()[:8], torch.get_rng_state()[:16].tolist()
-    obs = {"out": out, "err": err, "draws": trace, "global_rng_touched": g0 != g1 or pyrandom.getstate() != pyrandom_state}
+    out, err, touched = _select_under(case, 11, 11, 11, trace)
+    obs = {"out": out, "err": err, "draws": trace, "global_rng_touched": touched}
     if err == "RUNAWAY":
         return obs
-    # same arguments, other global generator states: the selection must not change
-    np.random.seed(977)
-    torch.manual_seed(5)
-    obs["again"] = _select(case)[0]
+    # same arguments, other states of all three global generators: the selection must not change
+    out2, err2, touched2 = _select_under(case, 977, 5, 3)
+    obs["again"] = out2
+    obs["again_err"] = err2
+    obs["global_rng_touched"] = sorted(set(touched) | set(touched2))
+    if case["w"] in SEEDED and case.get("seed") is None and "seed" in case:
+        # seed=None = "use the global numpy generator": same global state -> same selection
+        obs["same_state"] = _select_under(case, 11, 11, 11)[0]
     # complementary ranges
     n = len(case["classes"])
     if out is not None and case["w"] in ("percent", "subset_range", "subset_percent"):
@@ -244,17 +308,26 @@ def run_impl(case):
             hi = dict(case, s=hi_start, e=None) if case["e"] is not None else None
         obs["before"] = _select(lo)[0] if lo else []
         obs["after"] = _select(hi)[0] if hi else []
+    # a second wrapper on top (the usual way these wrappers are used): it must select from what the first exposes
+    # exactly what it selects from a plain dataset with the same labels
+    deterministic = not (case["w"] in SEEDED and case.get("seed") is None)
+    if out is not None and case.get("over") and deterministic and (out or case["over"]["w"] != "oversample"):
+        over = case["over"]
+        obs["composed"], obs["composed_err"] = _select(case, over=over)
+        alone = dict(over, classes=[case["classes"][i] for i in out], C=case["C"], prov=case.get("prov", "list"))
+        obs["outer_alone"], obs["outer_alone_err"] = _select(alone)
     return obs
 
 
 # ---------------------------------------------------------------------------
 # independent oracle
 # ---------------------------------------------------------------------------
-def _labels_ok(case, eff=False):
+def _labels_ok(case, eff=False, unlabeled=True):
+    """every label is a class in [0, C) or (unless unlabeled=False) -1 = unlabeled"""
     c = case["C"]
     if eff and c == 1:
         c = 2
-    return all(0 <= x < c for x in case["classes"])
+    return all((-1 if unlabeled else 0) <= x < c for x in case["classes"])
 
 
 def oracle(case, obs):
@@ -263,14 +336,33 @@ def oracle(case, obs):
     w, cl, n = case["w"], case["classes"], len(case["classes"])
     out = obs["out"]
     if obs["err"] == "RUNAWAY":
-        return f"{w}: construction does not terminate (alarm fired, the constructor did not return)"
-    if out is not None:
-        if obs.get("again") != out:
-            return f"{w}: same arguments, different global generator state -> different selection {out} vs {obs.get('again')}"
+        return f"{w}: construction does not terminate (the constructor used {_alarm_seconds():.0f} s of CPU time without returning)"
+    unseeded = w in SEEDED and case["seed"] is None
+    if unseeded and w != "fewshot":
+        # seed=None: the documented source is the global numpy generator, and nothing else
+        if out is not None and obs.get("same_state") != out:
+            return (f"{w}(seed=None): same arguments and same global numpy state -> different selections "
+                    f"{out} vs {obs.get('same_state')}")
+        if [g for g in obs["global_rng_touched"] if g != "numpy"]:
+            return f"{w}(seed=None): construction consumed the global generator(s) {obs['global_rng_touched']}"
+    elif not unseeded:
+        if obs.get("again") != out or obs.get("again_err") != obs["err"]:
+            return (f"{w}: same arguments{' and seed ' + repr(case['seed']) if w in SEEDED else ''}, other global generator "
+                    f"states -> different result {out if out is not None else obs['err']} vs "
+                    f"{obs.get('again') if obs.get('again') is not None else obs.get('again_err')}")
         if obs["global_rng_touched"]:
-            return f"{w}: construction consumed a global random generator"
-        if any(not 0 <= i < n for i in out):
-            return f"{w}: selection {out} leaves the dataset (n={n})"
+            return (f"{w}: construction{' with seed ' + repr(case['seed']) if w in SEEDED else ''} consumed the global "
+                    f"generator(s) {obs['global_rng_touched']}")
+    if out is not None and any(not 0 <= i < n for i in out):
+        return f"{w}: selection {out} leaves the dataset (n={n})"
+    if "composed" in obs:
+        alone = obs["outer_alone"]
+        expected = None if alone is None else [out[j] for j in alone]
+        if obs["composed"] != expected:
+            ow = case["over"]["w"]
+            return (f"{ow} over {w}: selected {obs['composed'] if obs['composed'] is not None else obs['composed_err']}; "
+                    f"over a plain dataset with the labels the {w} wrapper exposes it selects positions "
+                    f"{alone if alone is not None else obs['outer_alone_err']}, i.e. samples {expected}")
     cnt = collections.Counter(cl)
     occ = collections.Counter(out or [])
 
@@ -282,7 +374,7 @@ def oracle(case, obs):
         return None
 
     if w == "class_filter":
-        keep = set(case["cls"])
+        keep = set(c for c in case["cls"] if not case.get("names") or c < case["C"])
         return need([i for i in range(n) if (cl[i] in keep) == case["valid"]], "the samples of the allowed classes in order")
     if w in ("percent", "subset_range", "subset_percent"):
         if w == "percent":
@@ -324,7 +416,7 @@ def oracle(case, obs):
         return need([i % n for i in case["idxs"]], "the given indices")
     if w == "shuffle":
         if out is None or sorted(out) != list(range(n)):
-            return f"shuffle: {out} is not a permutation of range({n})"
+            return f"shuffle(seed={case['seed']!r}): {out if out is not None else 'raised ' + str(obs['err'])} is not a permutation of range({n})"
         return None
     if w == "repeat":
         if n == 0 or (case["reps"] is None) == (case["min_size"] is None):
@@ -341,12 +433,16 @@ def oracle(case, obs):
         if not _labels_ok(case, eff=True) or n == 0 or case["C"] < 1:
             return None
         if out is None:
-            return f"oversample: raised {obs['err']} on a labelled non-empty dataset"
-        mx = max(cnt.values())
+            return f"oversample: raised {obs['err']} on a non-empty dataset with valid labels"
         for i in range(n):
             if occ[i] < 1:
-                return f"oversample: sample {i} was dropped: {out}"
+                return f"oversample: sample {i} (class {cl[i]}) was dropped: {out}"
+            if cl[i] == -1 and occ[i] != 1:
+                return f"oversample: unlabeled sample {i} selected {occ[i]} times: {out}"
+        mx = max([k for c, k in cnt.items() if c != -1], default=0)
         for c, k in cnt.items():
+            if c == -1:
+                continue
             total = sum(occ[i] for i in range(n) if cl[i] == c)
             per = [occ[i] for i in range(n) if cl[i] == c]
             if case["mode"] == "multiply":
@@ -365,13 +461,16 @@ def oracle(case, obs):
         if not _labels_ok(case):
             return None
         if out is None or sorted(out) != list(range(n)) or [cl[i] for i in out] != cl:
-            return f"intra-class shuffle: {out} is not a permutation keeping the class sequence {cl}"
+            return (f"intra-class shuffle(seed={case['seed']!r}): {out if out is not None else 'raised ' + str(obs['err'])} "
+                    f"is not a permutation keeping the class sequence {cl}")
         return None
     if w == "fewshot":
-        if n == 0 or case["shots"] < 0 or min(cl) < 0:
+        if n == 0 or case["shots"] < 0 or min(cl) < -1:
             return None
         if out is None:
             return f"fewshot: raised {obs['err']}"
+        if any(cl[i] == -1 for i in out):
+            return f"fewshot: an unlabeled sample was selected: {out}"
         if len(set(out)) != len(out):
             return f"fewshot: a sample was selected twice: {out}"
         if [cl[i] for i in out] != sorted(cl[i] for i in out):
@@ -402,7 +501,9 @@ def oracle(case, obs):
                 p1 = 1.0 if case["e"] is None else case["e"]
                 if not (0 <= p0 <= p1 <= 1):
                     return None
-                exp += members[int(p0 * len(members)):int(p1 * len(members))]
+                # the wrapper multiplies the percent with a 0-dim integer tensor: binary32 arithmetic
+                f32 = _classes()["np"].float32
+                exp += members[int(f32(p0) * f32(len(members))):int(f32(p1) * f32(len(members)))]
         return need(exp, "the per-class slices")
     return None
 
@@ -418,7 +519,8 @@ def coq_wcase(case, obs):
     w = case["w"]
     d = obs["draws"]
     if w == "class_filter":
-        return C("WClassFilter", bool(case["valid"]), list(case["cls"]))
+        # by name: the names are mapped to class numbers through dataset.class_names first (unknown names drop out)
+        return C("WClassFilter", bool(case["valid"]), [c for c in case["cls"] if not case.get("names") or c < case["C"]])
     if w == "percent":
         return C("WPercent", _f(case["from"]), _f(case["to"]), bool(case["cf"]), bool(case["ct"]))
     if w == "subset_idx":
@@ -458,9 +560,34 @@ def coq_case(case, obs):
 # ---------------------------------------------------------------------------
 # generation
 # ---------------------------------------------------------------------------
+CLASS_BASED = ("class_filter", "oversample", "sort", "intra", "fewshot", "cw_range", "cw_percent")
+# counts c for which float32 1/c * (k*c) < k for some small k (an `int / tensor` division is evaluated like that)
+F32_COUNTS = [41, 47, 55, 61, 82, 83, 94, 97]
+
+
+def gen_ratio_layout(rng, big=False):
+    """class counts (c, k*c + d) with d in -1..1: the quotient max/count sits on / next to an integer"""
+    cap = 200
+    nc = rng.choice([2, 2, 3])
+    base = rng.choice(F32_COUNTS[:4] * 2 + F32_COUNTS[4:] + [3, 7, 11, 13, 33, 49] + [rng.randint(1, 60)])
+    counts = [base]
+    for _ in range(nc - 1):
+        kmax = max(1, min(5, (cap - sum(counts)) // max(base, 1)))
+        k = rng.randint(min(2, kmax), kmax)
+        counts.append(max(0, k * base + rng.choice([-1, 0, 0, 0, 1])))
+    while sum(counts) > cap:
+        counts[counts.index(max(counts))] //= 2
+    c = nc + rng.choice([0, 0, 1])
+    ids = rng.sample(range(c), nc)
+    cl = [ids[j] for j, k in enumerate(counts) for _ in range(k)]
+    if rng.random() < 0.6:
+        rng.shuffle(cl)
+    return cl, c
+
+
 def gen_layout(rng, big=False):
     c = rng.choice([1, 2, 2, 3, 3, 4, 5, 6])
-    n = rng.choice([0, 1, 2, 3, 4, 5, 6, 8, 10, 12, 16, 20, 27, 40] if not big else list(range(0, 81)))
+    n = rng.choice([0, 1, 2, 3, 4, 5, 6, 8, 10, 12, 16, 17, 20, 27, 33, 40, 64] if not big else list(range(0, 201)))
     style = rng.random()
     if style < 0.25:            # some classes absent
         present = rng.sample(range(c), rng.randint(1, c))
@@ -505,18 +632,78 @@ def gen_bound(rng, n):
     return rng.choice([None, None, 0, 0, 1, n, n, n + 3, max(0, n - 1), rng.randint(0, n + 2), rng.randint(0, max(n, 1))])
 
 
+def gen_seed(rng, case):
+    """None, falsy-looking seeds (0, False, numpy 0), seeds around the 32/64-bit boundaries, random ones"""
+    r = rng.random()
+    if r < 0.10:
+        case["seed"] = None
+    elif r < 0.28:
+        case["seed"] = 0
+    elif r < 0.34:
+        case["seed"], case["seed_np"] = 0, True
+    elif r < 0.40:
+        case["seed"] = rng.choice([False, True])
+    elif r < 0.52:
+        case["seed"] = rng.choice([1, 2, 2 ** 31 - 1, 2 ** 31, 2 ** 32 - 1, 2 ** 32, 2 ** 63 - 1, 2 ** 63, 2 ** 64 - 1,
+                                   2 ** 64, 2 ** 64 + rng.randint(1, 9), 2 ** 200])
+    elif r < 0.62:
+        case["seed"], case["seed_np"] = rng.randint(0, 2 ** 62), True
+    else:
+        case["seed"] = rng.randint(0, 9999)
+
+
+def gen_over(rng, c):
+    """a second constructor call whose arguments do not depend on the size of what it wraps"""
+    w = rng.choice(["shuffle", "intra", "sort", "class_filter", "repeat", "subset_percent", "percent", "fewshot",
+                    "oversample", "cw_percent"])
+    over = {"w": w}
+    if w in ("shuffle", "intra", "fewshot"):
+        over["seed"] = rng.choice([0, 1, rng.randint(0, 9999)])
+        if w == "fewshot":
+            over["shots"] = rng.choice([0, 1, 2, 3])
+    elif w == "class_filter":
+        over["valid"] = rng.random() < 0.5
+        over["cls"] = [rng.randrange(c + 1) for _ in range(rng.choice([0, 1, 2]))]
+    elif w == "repeat":
+        over["reps"], over["min_size"] = rng.choice([1, 2, 3]), None
+    elif w in ("subset_percent", "cw_percent", "percent"):
+        a, b = sorted(rng.choice([0.0, 0.25, 0.5, 0.75, 1.0, rng.random()]) for _ in range(2))
+        if w == "percent":
+            over.update({"from": a, "to": b, "cf": rng.random() < 0.3, "ct": rng.random() < 0.3})
+        else:
+            over["s"], over["e"] = a, b
+    elif w == "oversample":
+        over["mode"] = rng.choice(["multiply", "exact"])
+    return over
+
+
 def gen_case(rng, big=False, kind=None):
-    cl, c = gen_layout(rng, big)
-    n = len(cl)
+    case = _gen_case(rng, big, kind)
+    if rng.random() < 0.25:
+        case["over"] = gen_over(rng, case["C"])
+    return case
+
+
+def _gen_case(rng, big=False, kind=None):
     w = kind or rng.choice(KINDS)
+    if w == "oversample" and rng.random() < 0.35:
+        cl, c = gen_ratio_layout(rng, big)
+    else:
+        cl, c = gen_layout(rng, big)
+    n = len(cl)
     case = {"w": w, "classes": cl, "C": c, "prov": rng.choice(["list", "list", "torch", "none"])}
+    if w in CLASS_BASED and n > 0 and rng.random() < 0.15:
+        # unlabeled samples: one, a few, or (rarely) all of them
+        m = rng.choice([1, 1, 2, 3, max(1, n // 3), n if rng.random() < 0.3 else 1])
+        for i in rng.sample(range(n), min(m, n)):
+            cl[i] = -1
     if rng.random() < 0.03 and n > 0 and w in ("oversample", "sort", "intra", "fewshot", "cw_range", "cw_percent"):
-        # outside the property's domain: model-vs-code only (intra: a label -1 indexes the LAST class's permutation
-        # through Python's negative indexing, which the model does not mirror -> only the too-large label there)
-        cl[rng.randrange(n)] = rng.choice([-1, c]) if w != "intra" else c
+        # outside the property's domain (a label that is no class): model-vs-code agreement only
+        cl[rng.randrange(n)] = c
     if w == "class_filter":
         case["valid"] = rng.random() < 0.5
         case["cls"] = [rng.randrange(c + 1) for _ in range(rng.choice([0, 1, 1, 2, 3]))]
+        case["names"] = rng.random() < 0.3
     elif w == "percent":
         case.update({"from": gen_percent(rng, n), "to": gen_percent(rng, n), "cf": rng.random() < 0.4, "ct": rng.random() < 0.4})
         if rng.random() < 0.7 and case["from"] is not None and case["to"] is not None and case["from"] > case["to"]:
@@ -538,12 +725,16 @@ def gen_case(rng, big=False, kind=None):
                 if case["s"] is not None and case["s"] > case["e"]:
                     case["s"] = rng.choice([None, 0, case["e"]])
     elif w in ("subset_percent", "cw_percent"):
-        s, e = gen_percent(rng, n, w == "cw_percent"), gen_percent(rng, n, w == "cw_percent")
+        m, dyadic = n, False
+        if w == "cw_percent":       # cuts are taken per class: percents on / next to k/count_c
+            m = rng.choice([k for k in collections.Counter(cl).values()] or [n])
+            dyadic = rng.random() < 0.25
+        s, e = gen_percent(rng, m, dyadic), gen_percent(rng, m, dyadic)
         if s is not None and e is not None and s > e and rng.random() < 0.85:
             s, e = e, s
         case["s"], case["e"] = s, e
     elif w in ("shuffle", "intra"):
-        case["seed"] = rng.randint(0, 9999)
+        gen_seed(rng, case)
     elif w == "repeat":
         if rng.random() < 0.5:
             case["reps"], case["min_size"] = rng.choice([1, 2, 3, 5, 0]), None
@@ -557,7 +748,7 @@ def gen_case(rng, big=False, kind=None):
             case["classes"] = cl = [rng.randrange(c)]
     elif w == "fewshot":
         case["shots"] = rng.choice([0, 1, 1, 2, 3, 5, 50])
-        case["seed"] = rng.randint(0, 9999)
+        gen_seed(rng, case)
     return case
 
 
@@ -565,7 +756,7 @@ def gen_cases(rng, tier):
     n = 1300 if tier == "quick" else 9000
     out = [gen_case(rng, kind=KINDS[i % len(KINDS)]) for i in range(n)]
     if tier == "thorough":
-        out += [gen_case(rng, big=True) for _ in range(3000)]
+        out += [gen_case(rng, big=True, kind=KINDS[i % len(KINDS)]) for i in range(2600)]
     return out
 
 
@@ -578,7 +769,22 @@ def features(case, obs):
     yield "kind=" + case["w"]
     yield "result=" + ("ok" if obs.get("out") is not None else str(obs.get("err", "harness_exception")))
     cl = case["classes"]
-    yield "n=" + ("0" if not cl else "1" if len(cl) == 1 else "2-10" if len(cl) <= 10 else ">10")
+    yield "n=" + ("0" if not cl else "1" if len(cl) == 1 else "2-10" if len(cl) <= 10 else "11-16" if len(cl) <= 16
+                  else "17-64" if len(cl) <= 64 else ">64")
+    if case.get("over"):
+        yield "over=" + case["over"]["w"] + ("" if obs.get("composed") is not None else "(raised)" if "composed" in obs else "(n/a)")
+    if case["w"] in SEEDED:
+        sd = case["seed"]
+        yield "seed=" + ("None" if sd is None else ("numpy-" if case.get("seed_np") else "bool-" if isinstance(sd, bool) else "")
+                         + ("0" if not sd else "small" if sd < 2 ** 31 else ">=2**31" if sd < 2 ** 64 else ">=2**64"))
+    if case["w"] in CLASS_BASED:
+        yield "unlabeled=%s" % ("none" if -1 not in cl else "all" if set(cl) == {-1} else "some")
+    if case["w"] == "oversample" and cl:
+        k = collections.Counter(x for x in cl if x != -1)
+        if k:
+            mx = max(k.values())
+            yield "oversample_quotient=" + ("integer>1" if any(v < mx and mx % v == 0 for v in k.values()) else
+                                            "next-to-integer" if any(v < mx and (mx % v in (1, v - 1)) for v in k.values()) else "other")
     if case["w"] in ("oversample", "sort", "intra", "fewshot", "cw_range", "cw_percent", "class_filter"):
         yield "absent_class=%s" % (len(set(cl)) < case["C"])
         yield "single_sample_class=%s" % (1 in collections.Counter(cl).values())
@@ -600,6 +806,12 @@ def nontrivial_key(case, obs):
 def shrink(case):
     cl = case["classes"]
     n = len(cl)
+    if "idxs" not in case:
+        size = n // 2
+        while size >= 2:                      # whole chunks first (large layouts)
+            for a in range(0, n, size):
+                yield dict(case, classes=cl[:a] + cl[a + size:])
+            size //= 2
     for i in range(n):
         c2 = dict(case, classes=cl[:i] + cl[i + 1:])
         if "idxs" in case:
@@ -622,5 +834,11 @@ def shrink(case):
             yield dict(case, **{k: 0.5})
     if case.get("prov") != "list":
         yield dict(case, prov="list")
-    if case.get("seed"):
+    if "over" in case:
+        yield {k: v for k, v in case.items() if k != "over"}
+    if case.get("seed_np"):
+        yield dict(case, seed_np=False)
+    if case.get("seed") and not isinstance(case["seed"], bool):
         yield dict(case, seed=0)
+        if case["seed"] > 1:
+            yield dict(case, seed=1)
